@@ -213,3 +213,113 @@ Proof.
     replace (top_shift n) with 0 by (unfold top_shift; lia).
     rewrite Z.pow_0_r, Z.div_1_r, <- app_removelast_last by auto. reflexivity.
 Qed.
+
+(** ** facts about the specification of one draw *)
+Lemma spec_gen_biguint_ret n s c r : 0 <= n -> words s -> spec_gen_biguint n s = Ret (c, r) ->
+  exists ws, s = ws ++ r /\ Z.of_nat (length ws) = nwords n /\ c = cand n ws /\
+             words ws /\ words r /\ 0 <= c < 2 ^ n.
+Proof.
+  intros Hn Hs. unfold spec_gen_biguint.
+  destruct (take_words (Z.to_nat (nwords n)) s) as [[ws r']| |] eqn:T; cbn [bind]; try discriminate.
+  intros E. inversion E; subst. destruct (take_words_ret _ _ _ _ T) as (Es & Hl & _).
+  assert (0 <= nwords n) by (unfold nwords; lia).
+  rewrite Es in Hs. apply words_app in Hs. destruct Hs as [Hw Hr].
+  exists ws. repeat split; auto; try lia; apply cand_bound; auto; lia.
+Qed.
+
+Lemma spec_gen_biguint_app n ws r : 0 <= n -> Z.of_nat (length ws) = nwords n ->
+  spec_gen_biguint n (ws ++ r) = Ret (cand n ws, r).
+Proof.
+  intros Hn Hl. unfold spec_gen_biguint.
+  replace (Z.to_nat (nwords n)) with (length ws) by lia.
+  rewrite take_words_app. reflexivity.
+Qed.
+
+Lemma spec_gen_biguint_no_panic n s k : spec_gen_biguint n s <> Panic k.
+Proof.
+  unfold spec_gen_biguint, take_words. destruct (length s <? Z.to_nat (nwords n))%nat; discriminate.
+Qed.
+
+Lemma spec_bool_ret s b r : words s -> spec_bool s = Ret (b, r) ->
+  words r /\ (length r < length s)%nat.
+Proof.
+  intros Hs. destruct s as [|w t]; [discriminate|]. cbn [spec_bool]. intros E; inversion E; subst.
+  inversion Hs; subst. split; [auto|cbn [length]; lia].
+Qed.
+
+(** ** gen_bigint *)
+Lemma uis_zero_enc c : 0 <= c -> uis_zero (enc c) = (c =? 0).
+Proof. intros Hc. rewrite uis_zero_spec by apply enc_canon. rewrite enc_val by auto. reflexivity. Qed.
+
+Lemma from_biguint_enc s c : 0 <= c -> from_biguint s (enc c) = ienc (sign_z s * c).
+Proof. intros Hc. rewrite from_biguint_ienc by apply enc_canon. rewrite enc_val by auto. reflexivity. Qed.
+
+Theorem gen_bigint_loop_spec f : forall n s, 0 <= n -> words s ->
+  gen_bigint_loop f n s = omap lift_i (spec_gen_bigint_loop f n s).
+Proof.
+  induction f as [|f IH]; intros n s Hn Hs; [reflexivity|].
+  cbn [gen_bigint_loop spec_gen_bigint_loop]. rewrite gen_biguint_spec by auto.
+  destruct (spec_gen_biguint n s) as [[c r]| |] eqn:G; cbn [omap bind]; try reflexivity.
+  destruct (spec_gen_biguint_ret _ _ _ _ Hn Hs G) as (ws & _ & _ & _ & _ & Hr & Hc).
+  unfold lift_u at 1; cbn [fst snd]. rewrite uis_zero_enc by lia.
+  rewrite gen_bool_spec by auto.
+  destruct (spec_bool r) as [[b r2]| |] eqn:Bq; cbn [bind]; try (destruct (c =? 0); reflexivity).
+  destruct (spec_bool_ret _ _ _ Hr Bq) as [Hr2 _].
+  destruct (Z.eqb_spec c 0) as [E|E].
+  - destruct b; [apply IH; auto|]. reflexivity.
+  - unfold lift_i; cbn [fst snd]. rewrite from_biguint_enc by lia.
+    destruct b; cbn [sign_z omap bind fst snd]; do 3 f_equal; lia.
+Qed.
+
+Theorem gen_bigint_spec n s : 0 <= n -> words s ->
+  gen_bigint n s = omap lift_i (spec_gen_bigint n s).
+Proof. intros. apply gen_bigint_loop_spec; auto. Qed.
+
+Theorem spec_gen_bigint_loop_bound f : forall n s v r, 0 <= n -> words s ->
+  spec_gen_bigint_loop f n s = Ret (v, r) -> - 2 ^ n < v < 2 ^ n /\ words r.
+Proof.
+  induction f as [|f IH]; intros n s v r Hn Hs; [discriminate|].
+  cbn [spec_gen_bigint_loop].
+  destruct (spec_gen_biguint n s) as [[c r1]| |] eqn:G; cbn [bind]; try discriminate.
+  destruct (spec_gen_biguint_ret _ _ _ _ Hn Hs G) as (ws & _ & _ & _ & _ & Hr & Hc).
+  destruct (spec_bool r1) as [[b r2]| |] eqn:Bq; cbn [bind]; try discriminate.
+  destruct (spec_bool_ret _ _ _ Hr Bq) as [Hr2 _].
+  destruct (Z.eqb_spec c 0) as [E|E].
+  - destruct b; [apply IH; auto|]. intros X; inversion X; subst. split; [lia|auto].
+  - intros X; inversion X; subst. split; [destruct b; lia|auto].
+Qed.
+
+(** ** BigUint::bits *)
+Lemma B_pow2 k : 0 <= k -> B ^ k = 2 ^ (64 * k).
+Proof. intros Hk. rewrite Z.pow_mul_r by lia. f_equal; try (rewrite B_val; reflexivity). Qed.
+
+Lemma val_removelast_last l : l <> [] ->
+  val l = val (removelast l) + B ^ (Z.of_nat (length l) - 1) * last l 0.
+Proof.
+  intros Hne. rewrite (app_removelast_last 0 Hne) at 1. rewrite val_app, length_removelast_Z by auto.
+  rewrite val_single. reflexivity.
+Qed.
+
+Theorem rand_bits_spec m : canon m -> m <> [] -> rand_bits m = Z.log2 (val m) + 1.
+Proof.
+  intros Hm Hne. pose proof Hm as [Hwf _].
+  assert (HR : rand_bits m = Z.of_nat (length m) * 64 - leading_zeros64 (last m 0))
+    by (destruct m; [contradiction|reflexivity]).
+  rewrite HR. clear HR.
+  pose proof (canon_lower m Hm Hne) as Hlow.
+  pose proof (val_removelast_last m Hne) as Hv.
+  assert (Hwf' : wf (removelast m ++ [last m 0])) by (rewrite <- app_removelast_last; auto).
+  apply wf_app in Hwf'. destruct Hwf' as [Hwr Hwl]. inversion Hwl as [|? ? Hd _]; subst.
+  pose proof (val_bound _ Hwr) as Hlo. rewrite length_removelast_Z in Hlo by auto.
+  set (k := Z.of_nat (length m) - 1) in *. set (d := last m 0) in *. unfold digit in Hd.
+  assert (Hk : 0 <= k) by (subst k; destruct m; [contradiction|cbn [length]; lia]).
+  pose proof (B_pow k Hk) as HB.
+  assert (Hd1 : 1 <= d) by nia.
+  unfold leading_zeros64. replace (d =? 0) with false by (symmetry; apply Z.eqb_neq; lia).
+  pose proof (Z.log2_spec d ltac:(lia)) as Hl2. pose proof (Z.log2_nonneg d) as Hl0.
+  assert (HL : Z.log2 (val m) = 64 * k + Z.log2 d).
+  { apply Z.log2_unique; [lia|].
+    replace (Z.succ (64 * k + Z.log2 d)) with (64 * k + Z.succ (Z.log2 d)) by lia.
+    rewrite !Z.pow_add_r, <- !B_pow2 by lia. rewrite Hv. nia. }
+  rewrite HL. lia.
+Qed.
